@@ -481,7 +481,14 @@ def run(spec):
                 row = dict(x)
                 row.pop('time', None)
                 try:
-                    em.emit({'table': 'history', 'data': dict(row, time=1.5)})
+                    keys = list(row)
+                    if len(keys) >= 2 and len(keys) % 2 == 0:
+                        # the row reaches the emitter in two pieces at one time (several emits per time point)
+                        classes.add('emitter.split_row')
+                        em.emit({'table': 'history', 'data': dict({k: row[k] for k in keys[:len(keys) // 2]}, time=1.5)})
+                        em.emit({'table': 'history', 'data': dict({k: row[k] for k in keys[len(keys) // 2:]}, time=1.5)})
+                    else:
+                        em.emit({'table': 'history', 'data': dict(row, time=1.5)})
                     raw = em.get_data()
                     V.check('emitter_plain', json_plain(raw[1.5]), ('RAMEmitter stored non-JSON data', repr(raw)[:300]))
                     des = em.get_data_deserialized()
